@@ -100,7 +100,7 @@ pub trait DID:
 
 #[derive(Clone, PartialEq, Eq, PartialOrd, Ord, Hash, serde::Deserialize, serde::Serialize)]
 #[repr(transparent)]
-#[serde(into = "BaseDIDUrl", try_from = "BaseDIDUrl")]
+#[serde(into = "String", try_from = "String")]
 /// A wrapper around [`BaseDIDUrl`](BaseDIDUrl).
 pub struct CoreDID(BaseDIDUrl);
 
